@@ -419,6 +419,50 @@ func main() {
 		}
 		return refgeom.TightBound(mp)
 	}
+	// nil members: a collection may hold nil geometries (orb.AllGeometries starts with one); they count for nothing in
+	// the bound, survive cloning as nil, and compare equal to themselves
+	nilMenu := []orb.Geometry{nil, orb.Point{-7, -6}, orb.LineString{{2, 3}, {4, 1}}, orb.MultiPoint{}, orb.Polygon{{{5, 5}, {6, 5}, {6, 7}, {5, 5}}}}
+	r.Explore("nil-members", fmt.Sprintf("every collection of 1..3 members over %d shapes (a nil geometry among them), flat and nested in another collection: Bound is the tight box of the non-nil members' vertices (empty when there are none), Clone keeps the nils, Equal is reflexive", len(nilMenu)), mc.Opts{MaxDev: -1}, func(c *mc.Ctx) {
+		n := 1 + c.Choose(3)
+		var col, rest orb.Collection
+		hasNil := false
+		for i := 0; i < n; i++ {
+			m := nilMenu[c.Choose(len(nilMenu))]
+			col = append(col, m)
+			if m == nil {
+				hasNil = true
+			} else {
+				rest = append(rest, m)
+			}
+		}
+		if !hasNil {
+			c.Skip()
+			return
+		}
+		for fi, form := range []orb.Collection{col, {orb.Point{9, 9}, col}, {col}} {
+			var wr orb.Collection
+			switch fi {
+			case 0:
+				wr = rest
+			case 1:
+				wr = orb.Collection{orb.Point{9, 9}, rest}
+			case 2:
+				wr = orb.Collection{rest}
+			}
+			want, has := refgeom.TightBound(wr)
+			got := form.Bound()
+			if has && got != want || !has && !got.IsEmpty() {
+				c.Failf("nil-member-bound", "Bound() of %v = %v, the non-nil members give %v (any vertices: %v)", form, got, want, has)
+				return
+			}
+			cl, ok := orb.Clone(form).(orb.Collection)
+			if !ok || len(cl) != len(form) || !orb.Equal(cl, form) || !orb.Equal(form, form) {
+				c.Failf("nil-member-clone", "Clone / Equal of %v: clone %v", form, cl)
+				return
+			}
+		}
+		c.NonTrivial()
+	})
 	// bound methods: accessors, corners, ring / polygon forms, padding; and orb.Round under every factor
 	r.Explore("bound-methods", fmt.Sprintf("%d boxes x pads {-2,-0.5,0,0.25,1,3}: Left/Right/Top/Bottom/LeftTop/RightBottom/Center, ToRing (5 points, counter-clockwise from Min, closed), ToPolygon, Pad additive, IsZero, IsEmpty, Equal", len(boxes)), mc.Opts{MaxDev: -1}, func(c *mc.Ctx) {
 		b := boxes[c.Choose(len(boxes))]
